@@ -335,7 +335,7 @@ func (l *Lexer) readChar() {
 	// Return if we are already at the end of the input. Note that
 	// when position == len(l.characters) the current character is
 	// considered to be EOF, so that position is considered valid.
-	if l.position > len(l.characters) {
+	if l.position >= len(l.characters) {
 		return
 	}
 
